@@ -163,6 +163,8 @@ def quiescent_restart_write(facts, tp_results=None):
         res = [r for k in ('TP.6a', 'TP.6b', 'TP.6c') for r in tp_results.get(k, [])]
         ok = bool(res) and all(r[0] is True for r in res)
         why = '' if ok else next((f'{r[1]}: {r[3]}' for r in res if r[0] is not True), 'TP.6 not evaluated')
+        if not ok and not any(r[0] is False for r in res):
+            return None, 'TP.6 (stop() joins every worker before it returns) is not decided on this tree: ' + why          # neither proved nor refuted
     else:
         ok, why, _ = stop_joins_all(facts)
     if not ok: return False, 'TP.6 does not hold: ' + why
